@@ -1,5 +1,5 @@
 ---------------------------- MODULE VerifyTrust_Gen ----------------------------
-EXTENDS VerifyTrust, Json
+EXTENDS VerifyTrust, Json, Sequences
 SetToSeq(S) == CHOOSE s \in [1..Cardinality(S) -> S] : \A i, j \in 1..Cardinality(S) : i < j => s[i] # s[j]
 Export == pc = "done" =>
   PrintT("BEH " \o ToJson([leafBy |-> c.leafBy, leafW |-> c.leafW, intW |-> c.intW, intCA |-> c.intCA, bundled |-> c.bundled, anchors |-> SetToSeq(c.anchors),
